@@ -221,12 +221,20 @@ class Scenario:
 
     large = False
 
-    def view(self, layout, alt=False):
+    def view(self, layout, alt=False, flat=False):
         v = type('V', (), {})()
         v.s = self
         v.layout = layout
         for name in ('P', 'PK', 'E', 'va', 'vb', 'rects', 'tri', 'Z', 'values', 'G'):
             arr = getattr(self, name)
+            if flat:
+                # degenerate but legal-looking inputs (a constant curve, constant vectors): only used as history
+                # between two identical calls, never judged themselves
+                arr = np.array(arr, dtype=float)
+                if name in ('P', 'PK', 'Z', 'E'):
+                    arr[:, 1] = float(np.round(np.mean(self.P[:, 1]))) if name != 'Z' else 0.5
+                elif name in ('va', 'vb', 'values'):
+                    arr[...] = 3.0
             if alt:
                 # another valid input of the same shapes (used to pre-load reused buffers with different contents)
                 if name in ('P', 'Z'):
@@ -307,6 +315,11 @@ def entries(m):
     for p in kn.PeakDetection:
         E[f'kneedle.knees[{p}]'] = lambda v, p=p: kn.knees(v.P, 1.0, 1.0, p)
     E['kneedle.multi_knee'] = lambda v: kn.multi_knee(v.P, v.t, 3)
+    # x in units 2000 times smaller (bytes instead of 2 KB blocks): the exponential smoother silently underflows, so the
+    # result of these calls depends on NumPy's process-wide floating-point error mode being left alone
+    E['kneedle.knee[wide-x]'] = lambda v: kn.knee(v.P * np.array([2000, 1]), 1.0)
+    E['kneedle.knees[wide-x]'] = lambda v: kn.knees(v.P * np.array([2000, 1]), 1.0)
+    E['kneedle.multi_knee[wide-x]'] = lambda v: kn.multi_knee(v.P * np.array([2000, 1]), v.t, 3)
     for cd in kn.Direction:
         for cc in kn.Concavity:
             E[f'kneedle.differences[{cd},{cc}]'] = lambda v, cd=cd, cc=cc: kn.differences(v.P, cd, cc)
@@ -519,7 +532,7 @@ def _defaults_digest(mods):
     return argdigest(list(f.__defaults__ or ()))
 
 
-def call(ctx, name, fn, view):
+def call(ctx, name, fn, view, quiet_hist=False):
     """('ok', result) or ('exc', ExceptionTypeName).  Link-type exceptions are recorded by the RAISE monitor;
     any other exception (or a loop-bound excess) is outside this property and only has to be representation-independent."""
     try:
@@ -530,7 +543,8 @@ def call(ctx, name, fn, view):
         ctx.ood('entry', f'loop-bound-exceeded:{e.loopkey}')
         return 'exc', 'LoopBoundExceeded'
     except Exception as e:
-        ctx.h('entry_raised(outside C20 unless link-type)', f"{name.split('[')[0]}:{type(e).__name__}")
+        if not quiet_hist:
+            ctx.h('entry_raised(outside C20 unless link-type)', f"{name.split('[')[0]}:{type(e).__name__}")
         return 'exc', type(e).__name__
 
 
@@ -564,6 +578,7 @@ def run_entry(ctx, mods, name, fn, scen, layouts):
             ctx.check(eq_, 'representation', f'representation:{short}:reused-buffer',
                       f'{name}: a call on buffers that previously held another input differs from the call on a fresh copy of the same values',
                       c_result=r1, reused_result=rs)
+    FIRST[name] = (st1, r1)
     agree = {}
     for lay in layouts:
         stl, rl = call(ctx, name, fn, scen.view(lay))
@@ -590,6 +605,38 @@ def run_entry(ctx, mods, name, fn, scen, layouts):
                   c_result=r1, other_result=rl, layout=lay)
 
 
+FIRST = {}
+
+
+def run_history(ctx, mods, scen, base_err):
+    """'returns identical results when called again' with a history in between: after every entry point has been called on
+    this scenario in all representations, each one is called on a degenerate input of the same shapes (constant curve,
+    constant vectors) and then once more on the original C-ordered arguments; the outcome must equal the first one.  A
+    function that leaves process-wide state behind (NumPy's floating-point error mode, a module-level cache or scratch
+    buffer) changes what later, identical calls return."""
+    culprit = None
+    for name, fn in STATE['entries'].items():
+        call(ctx, name + '[flat]', fn, scen.view('C', flat=True), quiet_hist=True)
+        if culprit is None and np.geterr() != base_err:
+            culprit = name
+    if culprit:
+        ctx.h('numpy_errstate_left_changed_by', culprit.split('[')[0])
+    for name, fn in STATE['entries'].items():
+        if name not in FIRST:
+            continue
+        st1, r1 = FIRST[name]
+        st, r = call(ctx, name, fn, scen.view('C'), quiet_hist=True)
+        short = name.split('[')[0]
+        eq = st1 == st and (same(r1, r, True)[0] if st1 == 'ok' else r1 == r)
+        ctx.check(eq, 'determinism', f'determinism:{short}:after-history',
+                  f'{name} returned a different outcome when called again on identical arguments after other calls '
+                  f'(first: {st1} {r1 if st1 == "exc" else ""}; again: {st} {r if st == "exc" else ""})'
+                  + (f'; np.geterr() was left changed by {culprit}: {np.geterr()}' if culprit else ''),
+                  first=r1 if st1 == 'ok' else None, again=r if st == 'ok' else None)
+    if np.geterr() != base_err:
+        np.seterr(**base_err)       # keep the rest of the shard judged under the interpreter's default mode
+
+
 def run_case(ctx, mods, case):
     kind = case['kind']
     if kind == 'link':
@@ -608,8 +655,11 @@ def run_case(ctx, mods, case):
         scen.enlarge(mods)
     layouts = ['F', 'view'] + (['i64'] if case['integral'] else [])
     ctx.h('scenario', f"{'integral-large' if case.get('large') else ('integral' if case['integral'] else 'float')}/{scen.family}")
+    FIRST.clear()
+    base_err = np.geterr()
     for name, fn in STATE['entries'].items():
         run_entry(ctx, mods, name, fn, scen, layouts)
+    run_history(ctx, mods, scen, base_err)
     ctx.sample({'family': scen.family, 'integral': scen.integral, 'n': scen.n, 'points_head': scen.P[:5], 'knees': scen.K,
                 'entry_points': len(STATE['entries']), 'layouts': ['C'] + layouts}, cap=3)
 
